@@ -207,6 +207,7 @@ class C01(Check):
     pid = "C01"
     title = "Derivatives equal stoichiometry x rates over fully resolved values"
     rules = {
+        "A9": "(shared with C03) every entry point computes on a cache that reflects the model's current content: edits reset the memoised cache and nothing but the cache builder writes into it (I1, I5 of C03)",
         "A8": "(shared with C13) the static / state-dependent classification that decides which quantities the assembled right-hand side recomputes: N2 of C13 on Model._create_cache",
         "A1": "sibling agreement: Model.__call__ and Model._get_right_hand_side both accumulate exactly "
               "dxdt[cpd] += coef * values[flux] over the static table (coef = entry) and the dynamic table (coef = entry evaluated "
@@ -225,7 +226,7 @@ class C01(Check):
         "A5": "entry-point agreement: flux queries request exactly reactions + surrogate fluxes; every query entry point reaches _get_args "
               "(or consumes its output); component classes evaluate fn(*(values[a] for a in args)) and store under their own name",
     }
-    floors = {"A8": 3, "A1": 4, "A2": 5, "A3": 4, "A4": 2, "A5": 10, "A6": 2, "A7": 2}
+    floors = {"A9": 20, "A8": 3, "A1": 4, "A2": 5, "A3": 4, "A4": 2, "A5": 10, "A6": 2, "A7": 2}
     decided = [
         "both right-hand-side assemblers compute sum over static and state-dependent coefficients times fluxes, on one consistent value mapping",
         "vector form: declaration order, one entry per variable, 0 for untouched variables; integrator input/output use the same order",
@@ -245,6 +246,7 @@ class C01(Check):
         self.a6(mod)
         self.a7(mod)
         self.borrow("C13", ("N2", "N3"), "A8")
+        self.borrow("C03", ("I1", "I5"), "A9")
 
     # ------------------------------------------------------------------
     def a1(self, mod) -> None:
